@@ -391,6 +391,44 @@ def mutate(rnd, text):
         return bytes(b)
     return bytes(rnd.randrange(256) for _ in range(rnd.randrange(1, 12)))
 
+def boundary_json(rnd, n):
+    """inputs aimed at the fixed-size edges inside the readers (the 64-byte number buffer, 4-byte keyword reads,
+    string-builder growth steps, one-byte length fields), not at the grammar: compared model vs library only"""
+    out = []
+    digits = "0123456789"
+    def numtok(k):
+        form = rnd.randrange(9)
+        d = lambda m: "".join(rnd.choice(digits) for _ in range(max(1, m)))
+        if form == 0: t = rnd.choice("123456789") + d(k - 1)
+        elif form == 1: t = "-" + rnd.choice("123456789") + d(k - 2)
+        elif form == 2: t = "0." + d(k - 2)
+        elif form == 3: t = d(k - 3) + "e" + d(2)
+        elif form == 4: t = "1e" + "0" * (k - 3) + rnd.choice("123456789")
+        elif form == 5: t = "1" + "0" * (k - 1)
+        elif form == 6: t = "1." + "0" * (k - 3) + "1"
+        elif form == 7: t = d(k // 2) + "." + d(k - k // 2 - 1)
+        else: t = "".join(rnd.choice("0123456789+-.eE") for _ in range(k))
+        return t[:k] if len(t) > k else t
+    while len(out) < n:
+        k = rnd.choice([60, 61, 62, 62, 63, 63, 63, 64, 64, 64, 65, 65, 66, 70, 100, 126, 127, 128, 129, 200, 300])
+        tok = numtok(k)
+        ctx = rnd.randrange(8)
+        if ctx == 0: text = tok
+        elif ctx == 1: text = "[" + tok + "]"
+        elif ctx == 2: text = "[1," + tok + ",2]"
+        elif ctx == 3: text = '{"a":' + tok + "}"
+        elif ctx == 4: text = '{"a":' + tok + ',"b":' + numtok(rnd.choice([3, 63, 64])) + "}"
+        elif ctx == 5: text = " " + tok + " "
+        elif ctx == 6: text = "[" + tok                       # truncated right after the long token
+        else: text = tok + rnd.choice([",", "]", " 1", "\x00", "x"])
+        out.append(text.encode())
+        if rnd.random() < 0.25:
+            # strings and keys across the string-builder's growth steps and the one-byte length limit
+            m = rnd.choice([30, 31, 32, 33, 63, 64, 65, 127, 128, 129, 254, 255, 256, 257, 511, 512, 513])
+            body = "".join(rnd.choice("abcxyz") for _ in range(m))
+            out.append(rnd.choice(['"%s"', '["%s"]', '{"%s":1}', '{"k":"%s"}', '["%s","%s"]'.replace("%s", "%s", 1)]).replace("%s", body).encode())
+    return out[:n]
+
 TOKENS = [b"[", b"]", b"{", b"}", b",", b":", b'"a"', b"'b'", b"k", b"1", b"-2.5e3", b"true", b"false", b"null",
           b" ", b"//c\n", b"/*c*/", b"NaN", b"Infinity", b"\x00", b"@", b'"', b"\\", b"0", b"-", b"1e", b"tru"]
 
